@@ -2,7 +2,7 @@
 
 All call sequences up to a bounded length over {synthesize_trials with IterateSATGen / RandomGen / CMSGen / UniGen,
 print_experiments, tabulate_experiments, save_experiments_csv, experiments_to_tuples, experiments_to_dicts,
-sample_mismatch_experiment} are executed on corpus blocks (plain, with a continuous factor, with a constrained weighted
+sample_mismatch_experiment} are executed on corpus blocks (plain, derived factor listed first, with continuous factors (one computed from a discrete and a continuous factor), with a constrained weighted
 factor, with a LatinSquare whose last segment is partial, a tiny 2x2 block).  After every call: block.design, crossings
 and constraints are the same objects; the recompiled clause list equals the first one (syntactic equality; when it
 differs, projection inclusion both ways is decided by the solver before anything is reported); a final synthesize_trials
@@ -32,6 +32,8 @@ def blocks():
         ('latin-partial', D([A3, B3, C2], cross('ABC', 'AC', [['LatinSquare', ['A', 'B']]])), None),
         ('repeat', D([A2, B2], repeat(cross('AB', 'A', [['AtMostKInARow', 1, 'B', 'b0']]), [['MinimumTrials', 4]])), None),
         ('nest', D([A2, B2], nest(cross('A', 'A'), cross('B', 'B'))), None),
+        # the design lists a (non-implied) derived factor before the basic ones
+        ('derived-first', D([A2, B2, TRA], cross('RAB', 'AB', [['AtMostKInARow', 2, 'R', 'r0']])), None),
         ('continuous', D([A2, B2], cross('AB', 'AB')), 'continuous'),
     ]
     return out
@@ -136,6 +138,13 @@ def run_history(sub, item):
                               f'first call {cols}', dict(data, query='final'))
                 return
             disc = {k: v for k, v in seq.items() if k not in ('X', 'Y')}
+            if extra == 'continuous':
+                n = len(seq['A'])
+                if len(seq['X']) != n or len(seq['Y']) != n or any(x > 0.9 for x in seq['X']) or \
+                        any(seq['Y'][t] != (seq['A'][t], seq['X'][t]) for t in range(n)):
+                    sub.violation(f'{key}:continuous:{strat}', f'{name}: after {list(hist)}, {strat} returns continuous '
+                                  f'columns that are not computed from the same trials: {seq}', dict(data, query='final'))
+                    return
             try:
                 ok, bad = validate(desc, disc)
             except Outside:
